@@ -59,6 +59,8 @@ structure Series where
   numKeys : List String := []
   /-- some point of the series arrived through Prometheus remote write (label values are raw strings there) -/
   viaRW : Bool := false
+  /-- keys whose value is sent as JSON `true`, `null`, or as a string with an invalid escape sequence: not a tag value -/
+  badKeys : List String := []
 deriving Repr, Inhabited
 
 inductive MOp where | eq | ne | re | nre
@@ -151,9 +153,10 @@ def inRange (q : Query) (p : Nat × Nat) : Bool := q.start ≤ p.1 && p.1 ≤ q.
 /-- the longest tag value the tags tree file can frame (16-bit length field) -/
 def maxTagValueBytes : Nat := 65535
 
-/-- ingest accepts the datapoints of a series iff it has at least one tag and no tag value above 65535 bytes -/
+/-- ingest accepts the datapoints of a series iff it has at least one tag, no tag value above 65535 bytes, and every
+    tag value is a string or a number (a datapoint one of whose tags cannot be stored must leave nothing behind) -/
 def accepted (s : Series) : Bool :=
-  !s.labels.isEmpty && s.labels.all (fun kv => kv.2.utf8ByteSize ≤ maxTagValueBytes)
+  !s.labels.isEmpty && s.labels.all (fun kv => kv.2.utf8ByteSize ≤ maxTagValueBytes) && s.badKeys.isEmpty
 
 /-- the selected series that have at least one point in the range, each with its in-range points by time
     (series whose datapoints the ingest path rejects hold nothing) -/
@@ -329,7 +332,12 @@ def classes (ds : List Series) (q : Query) (sel : List (Series × List (Nat × N
   -- single '{' … i.e. splits the id on every '{' (ExtractMetricNameFromGroupID) and, with more than one, takes the whole id
   -- for the metric name: the group ids are garbled (kernel finding promql-group/value-contains-separator, end to end)
   let c8 := if q.agg.isSome && sel.any (fun (s, _) => s.labels.any (fun kv => kv.2.contains '{')) then ["agg-value-has-brace"] else []
-  c1 ++ c2 ++ c3 ++ c3b ++ c4 ++ c5 ++ c6 ++ c6b ++ c6c ++ c6d ++ c6e ++ c6f ++ c7 ++ c8
+  -- (repaired, c09-16) a matcher k="*" / k!="*": the tags search reads the value * as "any value"
+  let c9 := if q.matchers.any (fun m => m.label != "__name__" && (m.op == .eq || m.op == .ne) && m.value == "*") then ["star-literal-matcher"] else []
+  -- (repaired, c08-1) some ingested series has a tag whose value is not a string or a number: its first datapoint used to
+  -- be rejected AFTER the series had been created (served although rejected; later datapoints accepted without their tags)
+  let c10 := if ingested.any (fun s => !s.badKeys.isEmpty) then ["tag-value-not-a-string"] else []
+  c1 ++ c2 ++ c3 ++ c3b ++ c4 ++ c5 ++ c6 ++ c6b ++ c6c ++ c6d ++ c6e ++ c6f ++ c7 ++ c8 ++ c9 ++ c10
 
 def isSmallInt (q : Rat) : Bool := q.den == 1 && q.num.natAbs < pow2 40
 
@@ -351,16 +359,18 @@ iff their label sets are EQUAL once the metric name is dropped (one-to-one); eva
 selector or one aggregation over a selector (a regex on `__name__` is outside: two elements of one operand could then
 share a label set).  Label sets are compared literally, empty values included (the identity convention of the header).
 
-What is JUDGED (everything else is declared latitude, `BinPt.open`):
-  * arithmetic (+ - * / % ^), comparisons (filter or `bool`) and `and`: a result element exists only for a label set
-    that occurs on BOTH sides; at a timestamp at which both matched elements have a sample the value is x ∘ y
-    (comparison filter: x if the comparison holds, nothing otherwise; bool: 1 / 0; and: x);
-  * `unless`: the left elements whose label set does not occur on the right, with all their samples;
-  * `or`: all left elements with all their samples, plus the right elements whose label set does not occur on the left.
-  Not judged: a timestamp at which only ONE of two matched elements has a sample (the engine has no staleness /
-  lookback: it reads the missing right sample as 0, and decides and / or / unless per series, not per timestamp);
-  division and modulo by zero, `^` outside exponents 0..4 / |base| ≤ 8192, non-integer or large operands (float64
-  rounding is not modelled).  The metric name of a result element is never compared. -/
+What is JUDGED (everything else is declared latitude, `BinPt.open`), PER TIMESTAMP — the engine knows no staleness
+and no lookback: an element is in a vector at exactly the timestamps at which it has a sample (this is also how the
+aggregations above are specified), so the operators are evaluated over the samples of one timestamp:
+  * arithmetic (+ - * / % ^), comparisons (filter or `bool`) and `and`: a result sample exists only for a label set
+    that occurs on BOTH sides and at a timestamp at which BOTH matched elements have a sample; its value is x ∘ y
+    (comparison filter: x if the comparison holds, nothing otherwise; bool: 1 / 0; and: x).  A missing right sample is
+    NOT 0: `a + b` has no sample there (PromQL drops it as well);
+  * x / 0 is +Inf, -Inf or NaN (0 / 0), x % 0 is NaN — IEEE 754, as PromQL;
+  * `unless`: the left samples at the timestamps at which no matching right element has a sample;
+  * `or`: all left samples, plus the right samples at the timestamps at which no matching left element has one.
+  Not judged: `^` outside exponents 0..4 / |base| ≤ 8192, non-integer or large operands (float64 rounding is not
+  modelled), arithmetic on ±Inf / NaN.  The metric name of a result element is never compared. -/
 
 inductive BinOp where
   | add | sub | mul | div | mod | pow | eq | ne | gt | lt | ge | le | and | or | unless
@@ -397,21 +407,24 @@ def evalOperand (ds : List Series) (q : BinQuery) (o : Operand) : Option (List E
 
 inductive BinPt where
   | val (v : Rat)
-  | open           -- declared latitude: not judged
-deriving Repr
+  | inf (neg : Bool)   -- x / 0 with x ≠ 0 (PromQL: ±Inf)
+  | nan                -- 0 / 0, x % 0 (PromQL: NaN)
+  | open               -- declared latitude: not judged (the sample may also be absent)
+deriving Repr, DecidableEq
 
 def ratIsInt (q : Rat) : Bool := q.den == 1 && q.num.natAbs < pow2 20
 
-/-- x ∘ y at a timestamp where both elements have a sample: `none` = no result sample there -/
-def applyOp (op : BinOp) (retBool : Bool) (x y : Rat) : Option BinPt :=
-  let cmp (b : Bool) : Option BinPt := if retBool then some (.val (if b then 1 else 0)) else (if b then some (.val x) else none)
+/-- x ∘ y at a timestamp where both elements have a sample: `none` = no result sample there.  `keep` is the value a
+    comparison FILTER keeps when it holds: the sample of the vector operand (the left one between two vectors). -/
+def applyOpK (op : BinOp) (retBool : Bool) (x y keep : Rat) : Option BinPt :=
+  let cmp (b : Bool) : Option BinPt := if retBool then some (.val (if b then 1 else 0)) else (if b then some (.val keep) else none)
   if !(ratIsInt x && ratIsInt y) then some .open else
   match op with
   | .add => some (.val (x + y))
   | .sub => some (.val (x - y))
   | .mul => some (.val (x * y))
-  | .div => if y == 0 then some .open else some (.val (x / y))
-  | .mod => if y == 0 then some .open else some (.val ((Int.tmod x.num y.num : Int) : Rat))
+  | .div => if y == 0 then some (if x == 0 then .nan else .inf (x < 0)) else some (.val (x / y))
+  | .mod => if y == 0 then some .nan else some (.val ((Int.tmod x.num y.num : Int) : Rat))
   | .pow => if 0 ≤ y.num && y.num ≤ 4 && x.num.natAbs ≤ 8192 then some (.val ((x.num ^ y.num.toNat : Int) : Rat)) else some .open
   | .eq => cmp (x == y)
   | .ne => cmp (x != y)
@@ -421,30 +434,206 @@ def applyOp (op : BinOp) (retBool : Bool) (x y : Rat) : Option BinPt :=
   | .le => cmp (x ≤ y)
   | .and | .or | .unless => some (.val x)
 
-def findElem (v : List Elem) (ls : List (String × String)) : Option Elem := v.find? (·.1 == ls)
+def applyOp (op : BinOp) (retBool : Bool) (x y : Rat) : Option BinPt := applyOpK op retBool x y x
 
-/-- samples of a left element `x` that has the partner `y` -/
-def matchedPts (op : BinOp) (retBool : Bool) (x y : Elem) : List (Nat × BinPt) :=
+def BinOp.isSet : BinOp → Bool
+  | .and | .or | .unless => true
+  | _ => false
+
+def BinOp.isCmp : BinOp → Bool
+  | .eq | .ne | .gt | .lt | .ge | .le => true
+  | _ => false
+
+/-! #### vector matching: `on (l…)` / `ignoring (l…)` / default (all labels), one-to-one
+
+PromQL: two elements match iff they agree on the matching labels — the listed ones (`on`), all but the listed ones
+(`ignoring`), all of them (default); the metric name never takes part.  A label that an element does not carry is
+simply not in its key (literal identity, as everywhere in this specification: an empty value is a value of its own).
+One-to-one matching needs the keys to be pairwise different within each operand; otherwise the expression is an error
+in PromQL for arithmetic and comparisons (and the engine refuses it for the set operators as well): undefined here.
+Engine convention granted: a result element is reported under the label set of its LEFT element (PromQL would cut it
+down to the `on` labels resp. drop the `ignoring` ones); right elements taken over by `or` keep their own labels. -/
+
+inductive VMatch where
+  | default
+  | on (ls : List String)
+  | ignoring (ls : List String)
+deriving Repr
+
+def VMatch.isDefault : VMatch → Bool
+  | .default => true
+  | _ => false
+
+def VMatch.key (m : VMatch) (ls : List (String × String)) : List (String × String) :=
+  match m with
+  | .default => ls
+  | .on ks => ls.filter (fun kv => ks.contains kv.1)
+  | .ignoring ks => ls.filter (fun kv => !ks.contains kv.1)
+
+/-- an element of an intermediate or final result vector: label set (sorted, no metric name), samples by time -/
+abbrev XElem := List (String × String) × List (Nat × BinPt)
+
+def liftElem (e : Elem) : XElem := (e.1, e.2.map (fun (t, v) => (t, BinPt.val v)))
+
+def ptAt (e : XElem) (t : Nat) : Option BinPt := (e.2.find? (·.1 == t)).map (·.2)
+
+def findPartner (m : VMatch) (v : List XElem) (x : XElem) : Option XElem := v.find? (fun y => m.key y.1 == m.key x.1)
+
+def applyOpPt (op : BinOp) (retBool : Bool) : BinPt → BinPt → Option BinPt
+  | .val x, .val y => applyOp op retBool x y
+  | _, _ => some .open
+
+/-- samples of a left element `x` with partner `y`, PER TIMESTAMP (the engine knows no staleness: an element is in the
+    vector at the timestamps at which it has a sample, and nowhere else):
+    arithmetic / comparison / `and` need a sample on both sides; `unless` keeps the left samples where the right element
+    has none; `or` keeps all left samples. -/
+def matchedPts (op : BinOp) (retBool : Bool) (x y : XElem) : List (Nat × BinPt) :=
   match op with
-  | .unless => x.2.filterMap (fun (t, _) => if (y.2.any (·.1 == t)) then none else some (t, BinPt.open))
-  | .or => x.2.map (fun (t, vx) => (t, BinPt.val vx)) ++
-           (y.2.filter (fun (t, _) => !(x.2.any (·.1 == t)))).map (fun (t, _) => (t, BinPt.open))
-  | _ => x.2.filterMap (fun (t, vx) => match y.2.find? (·.1 == t) with
-      | some (_, vy) => (applyOp op retBool vx vy).map (fun p => (t, p))
-      | none => some (t, .open))
-
-def allVals (x : Elem) : List (Nat × BinPt) := x.2.map (fun (t, v) => (t, BinPt.val v))
+  | .or => x.2
+  | .unless => x.2.filterMap (fun (t, px) => match ptAt y t with
+      | none => some (t, px)
+      | some .open => some (t, BinPt.open)
+      | some _ => none)
+  | .and => x.2.filterMap (fun (t, px) => match ptAt y t with
+      | none => none
+      | some .open => some (t, BinPt.open)
+      | some _ => some (t, px))
+  | _ => x.2.filterMap (fun (t, px) => match ptAt y t with
+      | none => none
+      | some py => (applyOpPt op retBool px py).map (fun p => (t, p)))
 
 /-- what a left element contributes: with a partner its matched samples; without one it is kept by or / unless only -/
-def leftEntry (op : BinOp) (retBool : Bool) (r : List Elem) (x : Elem) : Option (List (String × String) × List (Nat × BinPt)) :=
-  match findElem r x.1 with
+def leftEntry (m : VMatch) (op : BinOp) (retBool : Bool) (r : List XElem) (x : XElem) : Option XElem :=
+  match findPartner m r x with
   | some y => some (x.1, matchedPts op retBool x y)
-  | none => if op == .unless || op == .or then some (x.1, allVals x) else none
+  | none => if op == .unless || op == .or then some x else none
 
-/-- the result vector: label set → (timestamp → judged value | open) -/
-def evalBin (op : BinOp) (retBool : Bool) (l r : List Elem) : List (List (String × String) × List (Nat × BinPt)) :=
-  l.filterMap (leftEntry op retBool r) ++
-  (if op == .or then (r.filter (fun y => (findElem l y.1).isNone)).map (fun y => (y.1, allVals y)) else [])
+/-- `or`: what a right element contributes: its samples at the timestamps at which its left partner has none -/
+def orExtra (m : VMatch) (l : List XElem) (y : XElem) : XElem :=
+  match findPartner m l y with
+  | none => y
+  | some x => (y.1, y.2.filterMap (fun (t, py) => match ptAt x t with
+      | none => some (t, py)
+      | some .open => some (t, BinPt.open)
+      | some _ => none))
+
+/-- the result vector of `l op r` under the matching `m` -/
+def evalVV (m : VMatch) (op : BinOp) (retBool : Bool) (l r : List XElem) : List XElem :=
+  l.filterMap (leftEntry m op retBool r) ++
+  (if op == .or then (r.map (orExtra m l)).filter (fun e => !e.2.isEmpty) else [])
+
+def hasDupLabels : List (List (String × String)) → Bool
+  | [] => false
+  | x :: r => r.contains x || hasDupLabels r
+
+def keysUnique (m : VMatch) (v : List XElem) : Bool := !hasDupLabels (v.map (fun e => m.key e.1))
+
+/-- default matching between two operand vectors (the `bin!` queries) -/
+def evalBin (op : BinOp) (retBool : Bool) (l r : List Elem) : List XElem :=
+  evalVV .default op retBool (l.map liftElem) (r.map liftElem)
+
+/-! #### expressions: scalar operands, unary minus, nesting -/
+
+inductive Expr where
+  | vec (o : Operand)
+  | num (q : Rat)
+  | neg (e : Expr)
+  | bin (op : BinOp) (retBool : Bool) (m : VMatch) (l r : Expr)
+deriving Repr
+
+inductive XVal where
+  | scalar (q : Rat)
+  | vector (es : List XElem)
+deriving Repr
+
+def negPt : BinPt → BinPt
+  | .val v => .val (-v)
+  | .inf n => .inf (!n)
+  | p => p
+
+/-- scalar ∘ scalar: only + - * and / by a non-zero number are defined here -/
+def scalarOp (op : BinOp) (x y : Rat) : Option Rat :=
+  match op with
+  | .add => some (x + y)
+  | .sub => some (x - y)
+  | .mul => some (x * y)
+  | .div => if y == 0 then none else some (x / y)
+  | _ => none
+
+/-- vector sample ∘ scalar (`swapped`: the scalar is the LEFT operand); a comparison filter keeps the vector's sample -/
+def vsPt (op : BinOp) (retBool : Bool) (swapped : Bool) (p : BinPt) (s : Rat) : Option BinPt :=
+  match p with
+  | .val x => if swapped then applyOpK op retBool s x x else applyOpK op retBool x s x
+  | _ => some .open
+
+def mapPts (f : BinPt → Option BinPt) (es : List XElem) : List XElem :=
+  es.map (fun e => (e.1, e.2.filterMap (fun (t, p) => (f p).map (fun q => (t, q)))))
+
+def evalOperandAt (ds : List Series) (start end_ : Nat) (o : Operand) : Option (List Elem) :=
+  evalOperand ds { start := start, end_ := end_, op := .add, retBool := false, lhs := o, rhs := o } o
+
+/-- `none` = undefined: ill-typed (set operator or vector matching with a scalar, `bool` without comparison,
+    comparison between two scalars), non-finite input value, regex on the metric name, matching keys not unique -/
+def evalExpr (ds : List Series) (start end_ : Nat) : Expr → Option XVal
+  | .vec o => (evalOperandAt ds start end_ o).bind (fun es =>
+      if hasDupLabels (es.map (·.1)) then none else some (.vector (es.map liftElem)))
+  | .num q => some (.scalar q)
+  | .neg e => match evalExpr ds start end_ e with
+    | some (.scalar q) => some (.scalar (-q))
+    | some (.vector es) => some (.vector (mapPts (fun p => some (negPt p)) es))
+    | none => none
+  | .bin op b m l r =>
+    if b && !op.isCmp then none else
+    match evalExpr ds start end_ l, evalExpr ds start end_ r with
+    | some (.scalar x), some (.scalar y) =>
+      if b || !m.isDefault then none else (scalarOp op x y).map XVal.scalar
+    | some (.vector es), some (.scalar y) =>
+      if op.isSet || !m.isDefault then none else some (.vector (mapPts (fun p => vsPt op b false p y) es))
+    | some (.scalar x), some (.vector es) =>
+      if op.isSet || !m.isDefault then none else some (.vector (mapPts (fun p => vsPt op b true p x) es))
+    | some (.vector le), some (.vector re) =>
+      if !keysUnique m le || !keysUnique m re then none else some (.vector (evalVV m op b le re))
+    | _, _ => none
+
+/-- the vector operands of an expression -/
+def Expr.operands : Expr → List Operand
+  | .vec o => [o]
+  | .num _ => []
+  | .neg e => e.operands
+  | .bin _ _ _ l r => l.operands ++ r.operands
+
+def sameTimestamps (x y : XElem) : Bool :=
+  x.2.all (fun p => (ptAt y p.1).isSome) && y.2.all (fun p => (ptAt x p.1).isSome)
+
+/-- input classes of the binary-operator repairs c09-18 … c09-21 (old behaviour: see known_findings.txt `fixed:` lines):
+    `binop-one-sided-timestamp` two matched elements of a vector–vector node do not have the same timestamps (a missing
+       right sample used to be read as 0; and / or / unless used to be decided per series);
+    `binop-division-by-zero`    a division whose right operand sample is 0 (the sample used to be dropped);
+    `vector-matching-label-chars` on()/ignoring() over elements one of whose label values has a character that is not a
+       letter, digit, underscore or white space (the values used to be cut by a regular expression);
+    `set-operator-with-on`      and / or / unless with on()/ignoring() (the matching clause used to be ignored);
+    `unary-minus`               -x (used to be evaluated as x) -/
+def wordChar (c : Char) : Bool := c.isAlphanum || c == '_' || c == ' ' || c == '\t' || c == '\n'
+
+def vvClasses (m : VMatch) (op : BinOp) (l r : List XElem) : List String :=
+  (if l.any (fun x => match findPartner m r x with | some y => !sameTimestamps x y | none => false) then ["binop-one-sided-timestamp"] else []) ++
+  (if op == .div && l.any (fun x => match findPartner m r x with
+        | some y => x.2.any (fun p => match ptAt y p.1 with | some (.val v) => v == 0 | _ => false)
+        | none => false) then ["binop-division-by-zero"] else []) ++
+  (if !m.isDefault && (l ++ r).any (fun e => e.1.any (fun kv => !(kv.1.toList.all wordChar && kv.2.toList.all wordChar) || kv.2.isEmpty))
+     then ["vector-matching-label-chars"] else []) ++
+  (if !m.isDefault && op.isSet then ["set-operator-with-on"] else [])
+
+def exprClasses (ds : List Series) (start end_ : Nat) : Expr → List String
+  | .vec _ => []
+  | .num _ => []
+  | .neg e => "unary-minus" :: exprClasses ds start end_ e
+  | .bin op b m l r =>
+    exprClasses ds start end_ l ++ exprClasses ds start end_ r ++
+    (match evalExpr ds start end_ l, evalExpr ds start end_ r with
+     | some (.vector le), some (.vector re) => vvClasses m op le re
+     | some (.vector _), some (.scalar y) => if op == .div && y == 0 && b == false then ["binop-division-by-zero"] else []
+     | _, _ => [])
 
 /-- the order in which the engine writes the label keys of a series into its id: the keys with a (non-name) value
     matcher first, then the others, each part sorted (structs.ReorderTagFilters: value filters before the key=* filters);
@@ -473,9 +662,5 @@ def Operand.idEndsWithComma (o : Operand) : Bool :=
     not (`sum by (k) (a) / b`): an element with a non-empty label set never finds its partner -/
 def binopTrailingComma (q : BinQuery) (l r : List Elem) : Bool :=
   q.lhs.idEndsWithComma != q.rhs.idEndsWithComma && (l ++ r).any (fun e => !e.1.isEmpty)
-
-def hasDupLabels : List (List (String × String)) → Bool
-  | [] => false
-  | x :: r => r.contains x || hasDupLabels r
 
 end SigModel.Spec.Metrics
